@@ -659,7 +659,11 @@ func runC19(r *h.Run) {
 	// ... and quadratic in the number of keys (about 1 s for 5 000 keys, 45 s for
 	// 70 000): key lists beyond 8 000 keys are left to the other trie checks
 	p.maxListKeys = 8000
-	r.Rule = "same space as C01 (variable part under scaffolds: K(U21,2); thorough: id K(U21,5), K(U85,3), 130 shift offsets over K(U21,1)) with the short-table scaffolds of every table size whose filler has at most 8 000 keys and their mixed variants (short and 17-bit nodes side by side), bigroot, big2; values are distinct-per-id integers / strings so leaf lines parse unambiguously; oracle: no panic; the #id tokens are exactly {0..NodeCnt-1}, each once; the =value suffixes top to bottom equal the retained values in key order; a loaded instance renders the identical string"
+	r.Rule = "same space as C01 (variable part under scaffolds: K(U21,2); thorough: id K(U21,5), K(U85,3), 130 shift offsets over K(U21,1)) with the short-table scaffolds of every table size whose filler has at most 8 000 keys and their mixed variants (short and 17-bit nodes side by side), bigroot, big2; values are distinct-per-id integers / strings so leaf lines parse unambiguously; oracle: no panic; the #id tokens are exactly {0..NodeCnt-1}, each once; the =value suffixes top to bottom equal the retained values in key order; a loaded instance renders the identical string; the same clauses on tries loaded from every historical layout (K(U21,2), scaffolds, sweep offsets)"
 	r.Assumptions = append([]string{"the rendering is parsed by its current line format: one line per node, the node id as #<digits>, a leaf value after the first '=' that follows the id"}, commonAssumptions...)
 	runTriePass(r, buildPhases(r, p), oracleC19, nil)
+	// "every trie" includes the tries loaded from the historical layouts
+	legacyLoadedPhase(r, "C19", 2, func(w *h.Worker, l *legacyLayout, b *h.Built, u *inputSpec, st *trie.SlimTrie) *h.Viol {
+		return oracleC19(w, b, h.InstFresh, st, u)
+	})
 }
